@@ -213,6 +213,16 @@ class SymPattern:
         key = tuple(map(id, nodes)) if False else repr(nodes)
         return self._interned.setdefault(key, list(nodes))
 
+    def _first_pos_only(self, probe):
+        """True when the pattern cannot match starting at the filler byte (position 0) of a concrete probe"""
+        saved = self.tree
+        try:
+            for _ in self._m(list(self.tree), 0, probe, 0, {}):
+                return False
+        finally:
+            self.tree = saved
+        return True
+
     def _search_from(self, s, start):
         for p in range(start, len(s.items) + 1):
             for end, g in self._m(list(self.tree), 0, s, p, {}):
@@ -228,16 +238,21 @@ class SymPattern:
             last = sym_pos[-1]
             # can the pattern match starting anywhere at or before the last symbolic character?
             memo = {}
-            anywhere = self._or([self.match_formula(s, p, memo) for p in range(0, last + 1)])
+            # `^` in MULTILINE mode looks one character back, so the first concrete position is included too
+            upto = last + 2 if self.multiline else last + 1
+            anywhere = self._or([self.match_formula(s, p, memo) for p in range(0, min(upto, len(s.items) + 1))])
             anywhere = z3.BoolVal(anywhere) if isinstance(anywhere, bool) else anywhere
             if not bool(SymBool(anywhere)):
-                # no: every match starts in the concrete tail, which the real engine handles
-                # (anchors/lookbehind at the boundary: only `^` in MULTILINE mode, handled by keeping the
-                # previous character when it is concrete)
-                tail = s.items[last + 1 :]
-                tail_b = bytes(tail) if s.kind == "bytes" else "".join(map(chr, tail))
-                if self.multiline:
-                    raise HarnessError("hybrid findall with MULTILINE anchors not modelled in the prototype")
+                # no: every match starts in the concrete tail, which the real engine handles.  The tail is handed to
+                # the real engine behind one filler byte, so that `^` does not take the cut for the start of the text.
+                tail = s.items[last + 1:]
+                for filler in (0, 1, 0x7F):
+                    probe = SymSeq([filler] + tail, s.kind)
+                    if self._first_pos_only(probe):
+                        break
+                else:
+                    raise HarnessError("hybrid findall: no neutral filler byte for this pattern")
+                tail_b = bytes([filler] + tail) if s.kind == "bytes" else "".join(map(chr, [filler] + tail))
                 return self.real.findall(tail_b)
         while pos <= len(s.items):
             m = self._search_from(s, pos)
